@@ -113,6 +113,90 @@ claim('C32',
       'TLA+ graph specification + TLC exhaustive enumeration + TLC judging observed orders', '5.8, 6/C32')
 
 
+claim('C07',
+      'spec/sys/OMSetGet.tla: every addressable name (source, connected input, auto-IVC-backed promoted input) is a view of one source '
+      '(NdIndex positions of the src_indices chain + unit factor); SetVal/GetVal act on the store of sources; phases leave it unchanged. '
+      'TLC checks RoundTrip, OthersUnchanged, PhaseNeutral and generates random write sequences of depth 6; each is replayed on a real '
+      'Problem under several phase schedules (before final_setup, after it, after run_model, interleaved) with all views compared after '
+      'every action.',
+      'One fixed model (6 addressable names, 9 index forms, 4 unit arguments); writes with repeated positions are outside the property.',
+      'TLA+ store semantics + TLC (exhaustive small depth + simulation) + behaviour replay under phase schedules', '6/C07, 16')
+
+claim('C10',
+      'spec/mech/LineSearch.tla (exact rationals): one Newton iteration filtered by BoundsEnforceLS / ArmijoGoldsteinLS with vector, scalar or '
+      'wall enforcement; TLC checks InBounds and AlongStep (plus scaled-space agreement, direction preservation and maximality laws) for every '
+      'scenario of the grid and exports the exact expected physical result; every scenario is executed on the real NewtonSolver + line search '
+      'and the observed output is compared with the exact value and re-judged against both invariants.',
+      'Vector length <= 2, u0 in {0,1,2}, steps -3..3, bounds from {0,1,2}, five (ref, ref0) scalings incl. ref < ref0, one Newton iteration, '
+      'fixed Armijo parameters; independent Fraction model cross-checks the oracle.',
+      'TLA+/TLC scenario enumeration with exact rational oracle + replay into NewtonSolver + line search', '5.2, 6/C10')
+
+claim('C13',
+      'spec/mech/CheckPartials.tla: what check_partials/check_totals must report (analytic and approximated matrices, error figures, the FULL '
+      'set of uncovered nonzeros) for affine integer components; 8 laws checked by TLC; every exported scenario (storage kinds dense, rows/cols, '
+      'diagonal, coo, csr, csc x declared pattern incl. under-declared in several columns x correct/wrong values) is executed through '
+      'Problem.check_partials (fd, exact-step fd, cs) and a subset through check_totals.',
+      'Affine integer components (FD/CS quotients exact); complete for shapes below 9 cells, seed-rotating sample of 3x3 / 3x4.',
+      'TLA+/TLC scenario enumeration with exact oracle + replay into check_partials/check_totals', '5.8, 6/C13')
+
+claim('C15',
+      'spec/mech/Interp.tla (exact rationals): all strictly increasing 3-5 point integer grids in -4..4 (1-D), pairs of representative grids of '
+      'every sign pattern (2-D), 3-D in thorough; multilinear / tensor-quadratic / tensor-cubic tables; queries at nodes, cell interior, '
+      'boundaries and just outside; TLC checks ErrorIff, NodeLaw, DerivLaw, HatLaw and exports the exact outcome; each scenario is executed on '
+      'InterpND for every method that reproduces the class, fixed vs general variants, vectorised vs single, and through MetaModelStructuredComp.',
+      'A method is only held to the polynomial class it provably reproduces; tolerance 1e-9 abs + 1e-9 rel + 1e-11 of the largest table entry.',
+      'TLA+ exact-rational oracle + TLC scenario enumeration + replay into InterpND / MetaModelStructuredComp', '5.8, 6/C15')
+
+claim('C16',
+      'Interior scenarios of spec/mech/Interp.tla with the exact gradient of the table polynomial and the slinear hat weights (DerivLaw, HatLaw '
+      'as TLC invariants); each is executed on InterpND (derivatives, gradient(), training gradients), MetaModelStructuredComp partials, '
+      'evaluate_spline and SplineComp: d/dx equals the exact gradient for reproducing methods, slinear d/dT equals the hat weights, '
+      'value = w.T with sum(w) = 1 wherever w is returned.',
+      'PARTIAL: for akima/cubic/bsplines on tables they do not reproduce only relations between observed numbers are checked '
+      '(difference quotient, linearity/homogeneity in the table values).',
+      'TLA+ exact-rational derivative oracle + TLC enumeration + replay; difference-quotient and linearity relations elsewhere', '6/C16, 7')
+
+claim('C21',
+      'spec/mech/Optimizer.tla: strictly convex separable QPs with every per-element bound pattern; TLC checks that the exactly computed optimum '
+      'is feasible, unique, the projection, the only KKT point and unchanged in driver space under 8 scaling records (bounds exchanged under '
+      'negative scalers; refutation run as vacuity guard). Sampled scenarios are executed on ScipyOptimizeDriver (SLSQP, COBYLA, trust-constr x '
+      'scalings x linear flag x scalar/array/indices declarations): on reported success the model design must be the returned vector, every '
+      'constraint element within bounds, and the design equal to x*.',
+      'Judged only when the driver reports success; COBYLA with equality constraints not judged; optimum tolerance 1e-4 (SLSQP) / 5e-3. '
+      'Four known findings (negative scaler, trust-constr callbacks, trust-constr linear offset, model not left at returned design).',
+      'TLA+ specification of convex-QP optima (KKT, scaling laws) + replay into ScipyOptimizeDriver with the exact oracle', '5.8, 6/C21')
+
+claim('C29',
+      'spec/mech/FileWrap.tla: template files as sequences of lines of fields with anchors; MarkAnchor (positive/negative occurrences), '
+      'ResetAnchor, TransferVar, TransferArray (incl. longer than the template), Transfer2DArray, ClearLine; TLC checks ReadBack, OthersUnchanged '
+      'and anchor laws on all operation sequences up to length 3. Every transition of the bounded graph is executed on a real InputFileGenerator '
+      'for each of 18 candidate values (ints, floats incl. -0.0, 1e300, 17 digits, negative exponents, inf, -inf, nan, strings) and the '
+      'generated file is read back completely with FileParser.',
+      'Value formatting is judged in the harness (floats to 16 significant digits); out-of-file rows, non-existent fields, too-short arrays, '
+      'transfer_keyvar and columns mode out of scope.',
+      'TLA+ state machine + TLC + transition-graph replay with a value-universe dimension', '5.8, 6/C29')
+
+claim('C06',
+      'spec/mech/Units.tla: units as (dimension vector, SYMBOLIC factor in a free abelian group, offset); TLC checks the algebraic laws '
+      '(compatibility is an equivalence that decides conversion, round trip, transitivity, factors of products/quotients/powers/prefixes, '
+      'offset units refuse arithmetic, simplify preserves the triple) on an abstract universe. UnitsJudge.tla derives, from the shipped '
+      'unit_library.ini parsed independently, the expected triple / compatibility / conversion tuple of every library unit, all compatible '
+      'pairs, every prefixed base unit and seeded composite expressions; each is replayed into openmdao.utils.units in several lookup orders.',
+      'Floats judged at 1e-12 relative; root exponents and number/offset-unit quotients out of scope.',
+      'TLA+ symbolic unit algebra + TLC laws + TLC-derived expectations for the shipped library + replay into units.py', '5.6, 6/C06')
+
+
+claim('C03',
+      'spec/mech/Coloring.tla: patterns, colorings (groups, recovered nonzeros, ordered subtraction steps) with GENERIC formal-sum values so '
+      'that reconstruction is decided for every matrix with the pattern at once; Valid, Partition, NoWorse. TLC (ColoringJudge.tla) judges the '
+      'Coloring objects the real _compute_coloring returns for every boolean pattern up to 3x3, 2x4, 4x2 (thorough: 4x4 + seeded to 12x12) in '
+      'fwd, rev, auto-direct and auto-substitution; the same colorings recover prime-filled matrices exactly through the real scatter/expansion '
+      'code, and colored totals/partials equal uncolored ones on generated models. A self-check enumerates all 2x2 candidate colorings.',
+      'Permissive spec (greedy order unspecified); exact compressed products assumed (linear solves are C01/C02); serial only.',
+      'TLA+/TLC validation of real Coloring objects + exhaustive pattern replay with exact integer oracle + colored-vs-uncolored model runs',
+      '5.8, 6/C03')
+
+
 def main():
     checks = []
     for pid in ALL:
